@@ -3,6 +3,8 @@
      sw    : the OpenSSL fallback is NOT modelled: block encryption is FIPS-197 (AesSpec), the
              stream is the portable loop of crypto_aesctr.c
      wipe-aesni / wipe-sw : release events of the free paths (C20)
+     wipe-nicpu0 : the same for the AES-NI build on a CPU that does not report AES-NI: OpenSSL key objects,
+             freed by the software tail of crypto_aes_key_free as compiled with CPUSUPPORT_X86_AESNI
      sel-<c><t> : the AES-NI build as a whole under the selection model (Crypto/AesSelect.v, data
              regenerated from crypto_aes.c / crypto_aesctr.c): c = 1 the CPU reports AES-NI, t = 1 the
              first-use self-test passes.  Key objects are AES-NI or OpenSSL objects as crypto_aes.c
@@ -26,7 +28,8 @@
    prefix "slow": like spec for block lines, with the S-box computed as inverse + affine map. *)
 let mode = if Array.length Sys.argv > 1 then Sys.argv.(1) else "aesni"
 let hw = (mode = "aesni" || mode = "wipe-aesni")
-let wipe = (mode = "wipe-aesni" || mode = "wipe-sw")
+let nicpu0 = (mode = "wipe-nicpu0")
+let wipe = (mode = "wipe-aesni" || mode = "wipe-sw" || nicpu0)
 let selmode = String.length mode = 6 && String.sub mode 0 4 = "sel-"
 let sel_cpu = selmode && mode.[4] = '1'
 let sel_test = selmode && mode.[5] = '1'
@@ -142,7 +145,7 @@ let key_object key =
       | Some (rks, nr) -> List.concat rks @ le64 (n_of_int 0xaa) @ le64 nr
       | None -> failwith "keylen")
   else List.concat (x_key_expansion key) @ [x_nr_of key |> int_of_nat |> n_of_int]
-let key_free key = show_release "key" (fst (split_at 16 key)) ((if hw then x_key_free_aesni else x_key_free_sw) (key_object key))
+let key_free key = show_release "key" (fst (split_at 16 key)) ((if hw then x_key_free_aesni else if nicpu0 then x_key_free_sw_ni else x_key_free_sw) (key_object key))
 let ctr_object (s : st) = le64 (n_of_int 0xaa) @ le64 s.bytectr @ s.buf @ s.pblk
 let ctr_free s = show_release "ctr" [] (x_aesctr_free (ctr_object s))
 
